@@ -444,9 +444,10 @@ Lemma rt_enum : forall V E h ls d,
   rt_ok (ser_enum V E h d) (fun buf => des_enum V E buf h ls) d.
 Proof.
   intros V E h ls d Hh Hw. cbn [wt] in Hw.
-  destruct d as [|[k0 v0] [|? ?]]; try discriminate.
-  destruct (Z.eqb_spec k0 0) as [->|Hk0]; [|destruct k0; try discriminate; congruence].
+  destruct d as [|[k0 v0] r]; [discriminate|].
+  destruct k0; try discriminate.
   destruct v0 as [k z| | | | |]; try discriminate.
+  destruct r; [|discriminate].
   apply andb_prop in Hw as [Hw Hl]. apply andb_prop in Hw as [Hk Hr].
   apply sk_eqb_eq in Hk. subst k.
   assert (Hal : align_compat V (sk_size (prim_sk h))) by (destruct h, V; try discriminate; reflexivity).
@@ -459,4 +460,154 @@ Proof.
     replace (match h with PI8 => Some KI8 | PI16 => Some KI16 | PI32 => Some KI32 | _ => None end)
       with (Some (prim_sk h)) by (destruct h; try discriminate; reflexivity).
     rewrite (D1 pre post Hpre). cbn [dbind]. unfold mem in Hl. rewrite Hl. reflexivity.
+Qed.
+
+(* ------------------------------------------------------------------ DynamicData maps *)
+Lemma lookup_insert_same : forall {A} k (v : A) d, lookup k (insert k v d) = Some v.
+Proof.
+  induction d as [|[k' v'] t IH]; cbn [insert lookup].
+  - now rewrite Z.eqb_refl.
+  - destruct (Z.ltb_spec k k'); cbn [lookup]; [now rewrite Z.eqb_refl|].
+    destruct (Z.eqb_spec k k'); cbn [lookup]; [now rewrite Z.eqb_refl|].
+    destruct (Z.eqb_spec k k'); [contradiction|]. exact IH.
+Qed.
+Lemma lookup_insert_other : forall {A} k k' (v : A) d, k <> k' -> lookup k (insert k' v d) = lookup k d.
+Proof.
+  induction d as [|[k2 v2] t IH]; intros Hne; cbn [insert lookup].
+  - destruct (Z.eqb_spec k k'); [contradiction|reflexivity].
+  - destruct (Z.ltb_spec k' k2); cbn [lookup].
+    + destruct (Z.eqb_spec k k'); [contradiction|reflexivity].
+    + destruct (Z.eqb_spec k' k2); cbn [lookup].
+      * subst k2. destruct (Z.eqb_spec k k'); [contradiction|reflexivity].
+      * destruct (Z.eqb_spec k k2); [reflexivity|]. now apply IH.
+Qed.
+
+Lemma sorted_from_weaken : forall l lo lo', lo' <= lo -> sorted_from lo l = true -> sorted_from lo' l = true.
+Proof.
+  destruct l as [|k r]; intros lo lo' Hle H; [reflexivity|].
+  cbn [sorted_from] in *. boolZ. apply andb_true_intro. split; [apply Z.ltb_lt; lia|assumption].
+Qed.
+Lemma insert_sorted_from : forall {A} (d : list (Z * A)) lo k v,
+  sorted_from lo (keys d) = true -> lo < k -> sorted_from lo (keys (insert k v d)) = true.
+Proof.
+  induction d as [|[k' v'] t IH]; intros lo k v H Hlt.
+  - cbn. apply andb_true_intro. split; [apply Z.ltb_lt; lia|reflexivity].
+  - cbn [keys map fst sorted_from] in H. apply andb_prop in H as [H1 H2]. apply Z.ltb_lt in H1.
+    cbn [insert]. destruct (Z.ltb_spec k k').
+    + cbn [keys map fst sorted_from]. rewrite H2.
+      repeat (apply andb_true_intro; split); try apply Z.ltb_lt; try lia; reflexivity.
+    + destruct (Z.eqb_spec k k').
+      * subst k'. cbn [keys map fst sorted_from]. apply andb_true_intro. split; [apply Z.ltb_lt; lia|exact H2].
+      * cbn [keys map fst sorted_from]. apply andb_true_intro. split; [apply Z.ltb_lt; lia|].
+        apply IH; [exact H2|lia].
+Qed.
+Lemma sorted_keys_from : forall {A} (d : list (Z * A)),
+  sorted_keys d = true <-> exists lo, sorted_from lo (keys d) = true.
+Proof.
+  intros A d. unfold sorted_keys. destruct (keys d) as [|k r] eqn:Hk.
+  - split; [exists 0; reflexivity|reflexivity].
+  - split.
+    + intros H. exists (k - 1). cbn [sorted_from]. rewrite H.
+      apply andb_true_intro. split; [apply Z.ltb_lt; lia|reflexivity].
+    + intros [lo H]. cbn [sorted_from] in H. now apply andb_prop in H as [_ H].
+Qed.
+Lemma insert_sorted : forall {A} (d : list (Z * A)) k v,
+  sorted_keys d = true -> sorted_keys (insert k v d) = true.
+Proof.
+  intros A d k v H. apply sorted_keys_from in H as [lo H]. apply sorted_keys_from.
+  exists (Z.min lo (k - 1)). apply insert_sorted_from; [|lia].
+  eapply sorted_from_weaken; [|exact H]. lia.
+Qed.
+
+Lemma lookup_below : forall {A} (d : list (Z * A)) lo k,
+  sorted_from lo (keys d) = true -> k <= lo -> lookup k d = None.
+Proof.
+  induction d as [|[k' v'] t IH]; intros lo k H Hle; [reflexivity|].
+  cbn [keys map fst sorted_from] in H. apply andb_prop in H as [H1 H2]. apply Z.ltb_lt in H1.
+  cbn [lookup]. destruct (Z.eqb_spec k k'); [lia|]. apply (IH k'); [exact H2|lia].
+Qed.
+
+Lemma sorted_ext : forall {A} (d1 d2 : list (Z * A)) lo,
+  sorted_from lo (keys d1) = true -> sorted_from lo (keys d2) = true ->
+  (forall k, lookup k d1 = lookup k d2) -> d1 = d2.
+Proof.
+  induction d1 as [|[k1 v1] r1 IH]; intros d2 lo H1 H2 Hl.
+  - destruct d2 as [|[k2 v2] r2]; [reflexivity|].
+    specialize (Hl k2). cbn [lookup] in Hl. rewrite Z.eqb_refl in Hl. discriminate.
+  - destruct d2 as [|[k2 v2] r2].
+    + specialize (Hl k1). cbn [lookup] in Hl. rewrite Z.eqb_refl in Hl. discriminate.
+    + cbn [keys map fst sorted_from] in H1, H2.
+      apply andb_prop in H1 as [H1a H1b]. apply andb_prop in H2 as [H2a H2b].
+      apply Z.ltb_lt in H1a. apply Z.ltb_lt in H2a.
+      destruct (Z.lt_trichotomy k1 k2) as [Hlt|[Heq|Hgt]].
+      * specialize (Hl k1). cbn [lookup] in Hl. rewrite Z.eqb_refl in Hl.
+        destruct (Z.eqb_spec k1 k2); [lia|].
+        rewrite (lookup_below r2 k2 k1 H2b) in Hl by lia. discriminate.
+      * subst k2. pose proof (Hl k1) as Hk. cbn [lookup] in Hk. rewrite Z.eqb_refl in Hk.
+        inversion Hk. subst v2. f_equal.
+        apply (IH r2 k1 H1b H2b). intros k.
+        destruct (Z.eq_dec k k1) as [->|Hne].
+        -- rewrite (lookup_below r1 k1 k1 H1b), (lookup_below r2 k1 k1 H2b) by lia. reflexivity.
+        -- specialize (Hl k). cbn [lookup] in Hl. destruct (Z.eqb_spec k k1); [contradiction|exact Hl].
+      * specialize (Hl k2). cbn [lookup] in Hl. rewrite Z.eqb_refl in Hl.
+        destruct (Z.eqb_spec k2 k1); [lia|].
+        rewrite (lookup_below r1 k1 k2 H1b) in Hl by lia. discriminate.
+Qed.
+
+(* what the reader has stored after the members ms of a structure whose value is d *)
+Definition ins (ms : list (minfo * ty)) (d acc : dyn) : dyn :=
+  fold_left (fun a mt => match lookup (m_id (fst mt)) d with
+                         | Some v => insert (m_id (fst mt)) v a
+                         | None => a
+                         end) ms acc.
+
+Lemma mem_true_iff : forall k l, mem k l = true <-> In k l.
+Proof.
+  intros. unfold mem. rewrite existsb_exists. split.
+  - intros [x [Hin He]]. apply Z.eqb_eq in He. now subst.
+  - intros. exists k. split; [assumption|apply Z.eqb_refl].
+Qed.
+
+Lemma ins_lookup : forall ms d acc k,
+  lookup k (ins ms d acc) =
+  if mem k (ids ms) then (match lookup k d with Some v => Some v | None => lookup k acc end)
+  else lookup k acc.
+Proof.
+  induction ms as [|[m t] r IH]; intros d acc k; [reflexivity|].
+  unfold ins in *. cbn [fold_left fst]. rewrite IH. cbn [ids map fst mem existsb].
+  fold (ids r). fold (mem k (ids r)).
+  destruct (Z.eqb_spec k (m_id m)) as [->|Hne]; cbn [orb].
+  - destruct (lookup (m_id m) d) as [v|] eqn:Hv.
+    + rewrite lookup_insert_same. now destruct (mem (m_id m) (ids r)).
+    + now destruct (mem (m_id m) (ids r)).
+  - destruct (lookup (m_id m) d) as [v|] eqn:Hv; [|reflexivity].
+    rewrite lookup_insert_other by assumption. reflexivity.
+Qed.
+
+Lemma ins_sorted : forall ms d acc, sorted_keys acc = true -> sorted_keys (ins ms d acc) = true.
+Proof.
+  induction ms as [|[m t] r IH]; intros d acc H; [exact H|].
+  unfold ins in *. cbn [fold_left fst]. apply IH.
+  destruct (lookup (m_id m) d); [now apply insert_sorted|exact H].
+Qed.
+
+Lemma lookup_in_keys : forall {A} k (d : list (Z * A)) v, lookup k d = Some v -> In k (keys d).
+Proof.
+  induction d as [|[k' v'] t IH]; intros v H; [discriminate|].
+  cbn [lookup] in H. cbn [keys map fst]. destruct (Z.eqb_spec k k'); [left; congruence|right; eauto].
+Qed.
+
+Lemma ins_eq : forall ms d,
+  sorted_keys d = true -> forallb (fun k => mem k (ids ms)) (keys d) = true -> ins ms d [] = d.
+Proof.
+  intros ms d Hs Hk.
+  pose proof (ins_sorted ms d [] eq_refl) as Hs'.
+  apply sorted_keys_from in Hs as [lo1 H1]. apply sorted_keys_from in Hs' as [lo2 H2].
+  apply (sorted_ext _ _ (Z.min lo1 lo2)).
+  - eapply sorted_from_weaken; [|exact H2]. lia.
+  - eapply sorted_from_weaken; [|exact H1]. lia.
+  - intros k. rewrite ins_lookup. cbn [lookup].
+    destruct (lookup k d) as [v|] eqn:Hv.
+    + apply lookup_in_keys in Hv. rewrite forallb_forall in Hk. rewrite (Hk k Hv). reflexivity.
+    + now destruct (mem k (ids ms)).
 Qed.
